@@ -142,7 +142,7 @@ Gibbs–Thomson term of `particleGibbs` contains the strain energy as well, so `
 
 /-- the regenerated KWN growth rate, factored; `kf` = kinetic shape factor -/
 theorem growthMultiKWN_factored (kf mc R dG Vm E f γ : α) (hVm : Vm ≠ 0) (hR : R ≠ 0) :
-    growthMultiKWN kf mc R (volDG dG Vm E) Vm E f γ
+    growthMultiKWN kf mc R (volDG dG Vm E) Vm Va E f γ
       = kf * mc * Vm / (R * R) * (volDG dG Vm E * R - 2 * f * γ) := by
   simp only [growthMultiKWN, volDG]
   field_simp
@@ -152,28 +152,28 @@ theorem growthMultiKWN_factored (kf mc R dG Vm E f γ : α) (hVm : Vm ≠ 0) (hR
 driving force: classes above the (unclamped) critical radius grow … -/
 theorem kwn_multi_pos_iff (kf mc R dG Vm E f γ : α) (hkf : 0 < kf) (hmc : 0 < mc) (hR : 0 < R) (hVm : 0 < Vm)
     (hd : 0 < volDG dG Vm E) :
-    0 < growthMultiKWN kf mc R (volDG dG Vm E) Vm E f γ ↔ rcritProposal f γ (volDG dG Vm E) < R := by
+    0 < growthMultiKWN kf mc R (volDG dG Vm E) Vm Va E f γ ↔ rcritProposal f γ (volDG dG Vm E) < R := by
   rw [growthMultiKWN_factored kf mc R dG Vm E f γ hVm.ne' hR.ne',
     pos_mul_pos_iff (by positivity), crossing_pos_iff f γ _ R hd]
 
 /-- … classes below shrink … -/
 theorem kwn_multi_neg_iff (kf mc R dG Vm E f γ : α) (hkf : 0 < kf) (hmc : 0 < mc) (hR : 0 < R) (hVm : 0 < Vm)
     (hd : 0 < volDG dG Vm E) :
-    growthMultiKWN kf mc R (volDG dG Vm E) Vm E f γ < 0 ↔ R < rcritProposal f γ (volDG dG Vm E) := by
+    growthMultiKWN kf mc R (volDG dG Vm E) Vm Va E f γ < 0 ↔ R < rcritProposal f γ (volDG dG Vm E) := by
   rw [growthMultiKWN_factored kf mc R dG Vm E f γ hVm.ne' hR.ne',
     pos_mul_neg_iff (by positivity), crossing_neg_iff f γ _ R hd]
 
 /-- … and the growth rate vanishes exactly at the critical radius. -/
 theorem kwn_multi_zero_iff (kf mc R dG Vm E f γ : α) (hkf : 0 < kf) (hmc : 0 < mc) (hR : 0 < R) (hVm : 0 < Vm)
     (hd : 0 < volDG dG Vm E) :
-    growthMultiKWN kf mc R (volDG dG Vm E) Vm E f γ = 0 ↔ R = rcritProposal f γ (volDG dG Vm E) := by
+    growthMultiKWN kf mc R (volDG dG Vm E) Vm Va E f γ = 0 ↔ R = rcritProposal f γ (volDG dG Vm E) := by
   rw [growthMultiKWN_factored kf mc R dG Vm E f γ hVm.ne' hR.ne',
     pos_mul_eq_zero_iff (by positivity), crossing_zero_iff f γ _ R hd]
 
 /-- **the kinetic shape factor does not change the sign**: the KWN growth rate is `kf` times the growth law
 evaluated with the chemical driving force -/
 theorem kwn_multi_eq_kf_mul (kf mc R dG Vm E f γ : α) (hVm : Vm ≠ 0) (hR : R ≠ 0) :
-    growthMultiKWN kf mc R (volDG dG Vm E) Vm E f γ = kf * growthMulti mc R dG (gExtra Vm E f γ R) := by
+    growthMultiKWN kf mc R (volDG dG Vm E) Vm Va E f γ = kf * growthMulti mc R dG (gExtra Vm E f γ R) := by
   rw [growthMultiKWN_factored kf mc R dG Vm E f γ hVm hR, growthMulti_factored mc R dG Vm E f γ hVm hR]
   ring
 
@@ -264,8 +264,8 @@ theorem rcritUsed_ge_Rmin (f γ dGv Rmin : α) (hd : 0 < dGv) : Rmin ≤ rcritUs
 at the recorded critical radius -/
 theorem kwn_multi_sign_at_recorded_Rcrit (kf mc R dG Vm E f γ Rmin : α) (hkf : 0 < kf) (hmc : 0 < mc) (hR : 0 < R)
     (hVm : 0 < Vm) (hd : 0 < volDG dG Vm E) (hun : Rmin ≤ rcritProposal f γ (volDG dG Vm E)) :
-    (0 < growthMultiKWN kf mc R (volDG dG Vm E) Vm E f γ ↔ rcritUsed f γ (volDG dG Vm E) Rmin < R) ∧
-    (growthMultiKWN kf mc R (volDG dG Vm E) Vm E f γ < 0 ↔ R < rcritUsed f γ (volDG dG Vm E) Rmin) := by
+    (0 < growthMultiKWN kf mc R (volDG dG Vm E) Vm Va E f γ ↔ rcritUsed f γ (volDG dG Vm E) Rmin < R) ∧
+    (growthMultiKWN kf mc R (volDG dG Vm E) Vm Va E f γ < 0 ↔ R < rcritUsed f γ (volDG dG Vm E) Rmin) := by
   rw [rcritUsed_unclamped f γ _ Rmin hd hun]
   exact ⟨kwn_multi_pos_iff kf mc R dG Vm E f γ hkf hmc hR hVm hd, kwn_multi_neg_iff kf mc R dG Vm E f γ hkf hmc hR hVm hd⟩
 
@@ -273,7 +273,7 @@ theorem kwn_multi_sign_at_recorded_Rcrit (kf mc R dG Vm E f γ Rmin : α) (hkf :
 are BELOW the recorded critical radius and still grow (the property's claim concerns the unclamped case) -/
 theorem clamped_classes_between_grow (kf mc R dG Vm E f γ Rmin : α) (hkf : 0 < kf) (hmc : 0 < mc) (hR : 0 < R)
     (hVm : 0 < Vm) (hd : 0 < volDG dG Vm E) (h1 : rcritProposal f γ (volDG dG Vm E) < R) (h2 : R < Rmin) :
-    R < rcritUsed f γ (volDG dG Vm E) Rmin ∧ 0 < growthMultiKWN kf mc R (volDG dG Vm E) Vm E f γ := by
+    R < rcritUsed f γ (volDG dG Vm E) Rmin ∧ 0 < growthMultiKWN kf mc R (volDG dG Vm E) Vm Va E f γ := by
   rw [rcritUsed_clamped f γ _ Rmin hd (lt_trans h1 h2)]
   exact ⟨h2, (kwn_multi_pos_iff kf mc R dG Vm E f γ hkf hmc hR hVm hd).mpr h1⟩
 
